@@ -95,6 +95,28 @@ def mutate(rng, text):
     return None, None
 
 
+def permutation_pairs():
+    """every operation with two or three operands applied to distinct stack words against the same operation with its operands in every
+    other order (as the top-level result, under another operation, and as the operand of a store); the judge decides which permutations
+    are distinguishable"""
+    import itertools
+    out = []
+    shuffles2 = {(1, 0): "SWAP1"}
+    # stack [a, b, c] (a on top): bring the permutation p of (a, b, c) to the top three cells
+    shuffles3 = {(1, 0, 2): "SWAP1", (2, 1, 0): "SWAP2", (0, 2, 1): "SWAP1 SWAP2 SWAP1", (1, 2, 0): "SWAP1 SWAP2", (2, 0, 1): "SWAP2 SWAP1"}
+    for op in gen.BIN:
+        for ctx in ("%s", "%s ISZERO", "%s PUSH1 0x0 MSTORE", "%s DUP1 ADD"):
+            out.append((ctx % op, ctx % ("SWAP1 " + op)))
+    for op in gen.TER:
+        for p, sh in shuffles3.items():
+            for ctx in ("%s", "%s ISZERO", "%s PUSH1 0x0 SSTORE", "%s PUSH1 0x1 ADD"):
+                out.append((ctx % op, ctx % (sh + " " + op)))
+    for st in ("MSTORE", "SSTORE", "MSTORE8"):
+        out.append((st, "SWAP1 " + st))
+    out.append(("KECCAK256", "SWAP1 KECCAK256"))
+    return out
+
+
 def multiset_pairs():
     """an operation performed twice against one copy of it plus a different, independent operation of the same kind (a comparison of
     the two specifications' stores that is not one-to-one lets both copies match the same store), both directions"""
@@ -127,6 +149,9 @@ def run(tier):
     for a, b in multiset_pairs():
         for o in osets:
             tasks.append({"kind": "compare", "a": a, "b": b, "opts": o, "mut": "multiset"})
+    for a, b in permutation_pairs():
+        for o in (osets[:1] + osets[2:3]):
+            tasks.append({"kind": "compare", "a": a, "b": b, "opts": o, "mut": "operand-permutation"})
     groups = {}
     for t in tasks:
         groups.setdefault(tuple(t["opts"]), []).append(t)
